@@ -119,7 +119,7 @@ func c06Enumerate(tier string, emit func(*eng.Case)) {
 	}
 	rec(0, map[int]int{}, 0)
 	// documents of the other checks; those that come without a page URL get one
-	crossEmit(tier, "xurls", 1, func(c *eng.Case) {
+	crossEmit("C06", tier, "xurls", 1, func(c *eng.Case) {
 		if c.URL == "" {
 			c.URL = c06PageURLs[0]
 		}
